@@ -125,7 +125,7 @@ class _UnionNormType(_BasicNormType):
     def _make_orderable(self, obj: object) -> str:
         if isinstance(obj, BaseNormType):
             return f"{obj.origin} {[self._make_orderable(arg) for arg in obj.args]}"
-        return str(obj)
+        return f"{type(obj)} {obj!r}"  # ``str`` gives equal keys for literal args like ``1`` and ``'1'``
 
     def _order_args(self, args: VarTuple[BaseNormType]) -> VarTuple[BaseNormType]:
         args_list = list(args)
